@@ -430,7 +430,7 @@ fn gen_history(rng: &mut Prng) -> History {
             Op::Del(gen_key(rng, space))
         } else if r < 52 {
             let n = rng.range(2, 4);
-            Op::Batch((0..n).map(|_| (gen_key(rng, space), if rng.chance(1, 4) { None } else { Some(gen_val(rng, false)) })).collect())
+            { let _ = n; Op::Batch(crate::dbsim::gen_batch_ops(rng, space, 2, 5)) }
         } else if r < 62 {
             Op::Fill(rng.below(10) as u32, rng.range(3, 10) as u32, *rng.pick(&[40u32, 120, 300]))
         } else if r < 78 {
